@@ -2,7 +2,12 @@
 
 package transport
 
-import "net"
+import (
+	"net"
+
+	"hop.computer/hop/certs"
+	"hop.computer/hop/keys"
+)
 
 // White-box accessors for the simulation harness (/verif).  This file is added
 // to the package with `go build -overlay`; it does not exist in the repository.
@@ -80,4 +85,67 @@ func (s *Server) VerifEstablished(id [4]byte) bool {
 	ss.m.Lock()
 	defer ss.m.Unlock()
 	return ss.handle != nil
+}
+
+// ---------------------------------------------------------------------------
+// Protocol-following adversary pieces for the cookie checks (C19).  They are
+// attacker code built from the package's own message writers: an error here can
+// only cost detection power (the control case "same key, same address" must be
+// accepted by the server, which the harness checks), never raise an alarm.
+
+// VerifAdvClientHello returns a valid ClientHello for the KEM key pair.
+func VerifAdvClientHello(kp *keys.KEMKeyPair) ([]byte, error) {
+	hs := new(HandshakeState)
+	hs.duplex.InitializeEmpty()
+	hs.duplex.Absorb([]byte(PostQuantumProtocolName))
+	hs.kem = new(kemState)
+	hs.kem.ephemeral = *kp
+	buf := make([]byte, 65535)
+	n, err := writePQClientHello(hs, buf)
+	return buf[:n], err
+}
+
+// VerifAdvOpenServerHello extracts the KEM shared secret and the cookie from a ServerHello.
+func VerifAdvOpenServerHello(kp *keys.KEMKeyPair, sh []byte) (k, cookie []byte, err error) {
+	if len(sh) < HeaderLen+KemCtLen+PQCookieLen+MacLen {
+		return nil, nil, ErrBufUnderflow
+	}
+	k, err = kp.Decapsulate(sh[HeaderLen : HeaderLen+KemCtLen])
+	if err != nil {
+		return nil, nil, err
+	}
+	cookie = append([]byte(nil), sh[HeaderLen+KemCtLen:HeaderLen+KemCtLen+PQCookieLen]...)
+	return k, cookie, nil
+}
+
+// VerifAdvClientAck builds a ClientAck that presents ackKey as the client's KEM
+// key together with a cookie and shared secret that may have been obtained
+// under another key or address.  Its transcript is the one the server will
+// reconstruct from the acknowledgement itself, so only the cookie's binding can
+// make the server refuse it.
+func VerifAdvClientAck(ackKey *keys.KEMKeyPair, k, cookie []byte, name certs.Name) ([]byte, error) {
+	hs := new(HandshakeState)
+	hs.dh = new(dhState)
+	hs.dh.ephemeral.Generate()
+	hs.kem = new(kemState)
+	hs.kem.ephemeral = *ackKey
+	hs.cookie = append([]byte(nil), cookie...)
+	hs.certVerify = &VerifyConfig{Name: name}
+	pub, err := ackKey.Public.MarshalBinary()
+	if err != nil {
+		return nil, err
+	}
+	hs.duplex.InitializeEmpty()
+	hs.duplex.Absorb([]byte(PostQuantumProtocolName))
+	hs.duplex.Absorb([]byte{byte(MessageTypeClientHello), Version, 0, 0})
+	hs.duplex.Absorb(pub)
+	hs.duplex.Squeeze(hs.macBuf[:])
+	hs.duplex.Absorb([]byte{byte(MessageTypeServerHello), 0, 0, 0})
+	hs.duplex.Absorb(k)
+	hs.duplex.Absorb(cookie)
+	hs.duplex.Squeeze(hs.macBuf[:])
+	hs.RekeyFromSqueeze(PostQuantumProtocolName)
+	buf := make([]byte, 65535)
+	n, err := hs.writePQClientAck(buf)
+	return buf[:n], err
 }
